@@ -49,13 +49,20 @@ class ClassInfo:
                     v = stmt.value
                     if isinstance(v, ast.Name):
                         self.aliases[t.id] = v
+                    # property(g, s) / property(fget=g, fset=s) / property(g).setter(s)
+                    chained = None
+                    if isinstance(v, ast.Call) and isinstance(v.func, ast.Attribute) and v.func.attr == "setter" and len(v.args) == 1 and not v.keywords:
+                        chained, v = v.args[0], v.func.value
                     if (
                         isinstance(v, ast.Call)
                         and isinstance(v.func, ast.Name)
                         and v.func.id == "property"
+                        and all(k.arg in ("fget", "fset", "doc", "fdel") for k in v.keywords)
                     ):
-                        g = v.args[0] if v.args else None
-                        s = v.args[1] if len(v.args) > 1 else None
+                        given = dict(zip(("fget", "fset"), v.args[:2]))
+                        given.update({k.arg: k.value for k in v.keywords})
+                        g = given.get("fget")
+                        s = chained if chained is not None else given.get("fset")
                         self.properties[t.id] = (g, s)
         elif isinstance(stmt, ast.AnnAssign) and isinstance(stmt.target, ast.Name):
             if stmt.value is not None:
